@@ -60,7 +60,7 @@ func runC20(c *Ctx) {
 		const rule = "R1-conditional-put"
 		etag := vParam("etag")
 		for _, put := range callsTo(wr, isPut) {
-			in := put.Common().Args[1]
+			in := refArgs(put)[1]
 			var al *ssa.Alloc
 			for _, o := range origins(in) {
 				if a, ok := o.(*ssa.Alloc); ok {
@@ -139,12 +139,12 @@ func runC20(c *Ctx) {
 		c.floor(rule, len(ds), 1, "DeleteObject call in ReleaseLease")
 		etag := vFieldLoad("Lease.ETag", vParam("lease"))
 		for _, d := range ds {
-			f := compositeFields(d.Common().Args[1])
+			f := compositeFields(refArgs(d)[1])
 			v, ok := f["IfMatch"]
 			c.check(ok && awsStr(etag)(v), rule, fnName(rel)+": DeleteObject If-Match = lease.ETag", c.pos(d), "aws.String(lease.ETag)", "the lease object can be deleted without matching the caller's ETag")
 			// ... on every path: the header assignment dominates the request
 			uncond := false
-			for _, st := range fieldStoresOf(d.Common().Args[1], "IfMatch") {
+			for _, st := range fieldStoresOf(refArgs(d)[1], "IfMatch") {
 				if dominates(st, d) {
 					uncond = true
 				}
@@ -353,7 +353,7 @@ func runC20(c *Ctx) {
 		for _, fn := range c.P.ProdFuncs() {
 			for _, call := range calls(fn) {
 				nm := calleeName(call)
-				a := call.Common().Args
+				a := refArgs(call)
 				anyExp := false
 				for _, x := range a {
 					if isExp(x) {
@@ -384,6 +384,65 @@ func runC20(c *Ctx) {
 			}
 		}
 		c.floor(rule, nUse, 1, "uses of Lease.ExpiresAt")
+	}
+
+	// R11: the expiry *decision* is exact as well: what (*Lease).IsExpired returns derives from
+	// ExpiresAt and the clock through comparisons and differences only; no rounding,
+	// truncation, unit conversion or division on the way (through the functions it calls)
+	if fn := c.fn("R11-expiry-decision-is-exact", "(*ls.Lease).IsExpired"); fn != nil {
+		const rule = "R11-expiry-decision-is-exact"
+		lossy := ""
+		seenV := map[ssa.Value]bool{}
+		var walk func(v ssa.Value, depth int)
+		walk = func(v ssa.Value, depth int) {
+			if v == nil || seenV[v] || depth > 6 || lossy != "" {
+				return
+			}
+			seenV[v] = true
+			for _, o := range origins(v) {
+				switch x := o.(type) {
+				case *ssa.Call:
+					nm := calleeName(x)
+					switch {
+					case strings.HasSuffix(nm, ".Round") || strings.HasSuffix(nm, ".Truncate") || strings.HasSuffix(nm, ".Unix") || strings.HasSuffix(nm, ".UnixMilli") ||
+						strings.HasSuffix(nm, ".Seconds") || strings.HasSuffix(nm, ".Minutes") || strings.HasSuffix(nm, ".Hours") || strings.HasSuffix(nm, ".Milliseconds") || strings.HasSuffix(nm, ".Microseconds"):
+						lossy = nm + " @ " + c.pos(x)
+						return
+					}
+					if h := x.Call.StaticCallee(); h != nil && h.Blocks != nil && c.P.InP(h) {
+						for _, r := range returns(h) {
+							for i := range r.Results {
+								walk(retOperand(r, i), depth+1)
+							}
+						}
+					}
+					for _, a := range x.Call.Args {
+						walk(a, depth+1)
+					}
+				case *ssa.BinOp:
+					if x.Op == token.QUO || x.Op == token.REM || x.Op == token.SHR {
+						lossy = "integer " + x.Op.String() + " @ " + c.pos(x)
+						return
+					}
+					walk(x.X, depth+1)
+					walk(x.Y, depth+1)
+				case *ssa.Convert:
+					walk(x.X, depth+1)
+				case *ssa.ChangeType:
+					walk(x.X, depth+1)
+				}
+			}
+		}
+		n := 0
+		for _, r := range returns(fn) {
+			if len(r.Results) == 1 {
+				n++
+				walk(retOperand(r, 0), 0)
+			}
+		}
+		c.floor(rule, n, 1, "returns of Lease.IsExpired")
+		c.check(lossy == "", rule, fnName(fn)+": the expiry decision compares ExpiresAt with the clock at full precision", c.P.Pos(fn.Pos()),
+			"comparisons and differences only", "the decision passes through "+lossy+": a lease with a fraction of its lifetime left is reported expired and can be taken over while its holder still relies on it")
 	}
 
 	// R8: generation continuity across release (F6)
